@@ -76,11 +76,18 @@ def run(v, tier, replay):
         v.case(("ev", json.dumps(e, sort_keys=True)), nontrivial=True)
         nfl += e["ev"] == "flip"
     v.cov["single_bit_flips"] = nfl
+    vn = [e for e in events if e["ev"] == "vname"]
+    v.cov["name_sets_issued"] = len({e["set"] for e in vn if e["issued"] == "yes"}); v.cov["name_sets_refused"] = len({e["set"] for e in vn if e["issued"] == "no"})
+    if v.cov["name_sets_issued"] < 10:
+        raise lib.Inconclusive("name-fidelity section vacuous: only %d identities were issued" % v.cov["name_sets_issued"])
     v.sample(events[1]); v.sample([e for e in events if e["ev"] == "issue"][3]); v.sample([e for e in events if e["ev"] == "vissued"][0])
     for m in re.finditer(r'<<"MISMATCH", (\d+)>>', r.out):
         e = events[int(m.group(1)) - 1]
         if e["ev"] in ("flip", "flipbase"):
             sig = "bit flip %s bit %s verified as %s" % (e.get("which"), e.get("bit"), e["got"])
+        elif e["ev"] == "vname":
+            sig = "leaf issued for names of %s bytes: after serialisation %s" % (e["lens"], "it no longer parses (%s)" % e["probe"][:60] if e["reparse"] != "ok"
+                  else "verification for name %s (%s by the issuer) gives ok=%s" % (e["probe"], "certified" if e["certified"] == "yes" else "NOT certified", e["ok"]))
         elif e["ev"] == "issue":
             sig = "IssueLeafAt parent-window %s at %s dur %s -> err=%s window %s" % (e["pw"], e["at"], e["dur"], e["err"], e["w"])
         else:
